@@ -42,7 +42,7 @@ func (c *CsvCase) fileBytes() []byte {
 	return buf.Bytes()
 }
 
-var csvFieldAlphabet = []string{"", "x", "1", "a,b", "say \"hi\"", "line1\nline2", "ünï", " lead", "trail ", "\"", "tab\there", "0", "-1", "日本語", "a\"\"b", ";", "'", " ", "\t", "%s"}
+var csvFieldAlphabet = []string{"", "x", "1", "a,b", "say \"hi\"", "line1\nline2", "ünï", " lead", "trail ", "\"", "tab\there", "0", "-1", "日本語", "a\"\"b", ";", "'", " ", "\t", "%s", "caf\xe9", "\xff\xfe", "\x80"}
 var headerPool = []string{"a", "B", "Na me", "K2", "Äb", "x-y", "COUNT", "q_", "Zz9", "é", "u v w", "İd", "K", "hello.world", "A1", "b!"}
 
 func runCsvCase(o *Oracle, c *CsvCase, rep *Report, valid string) {
